@@ -3,7 +3,7 @@ C04 — the model satisfies the specification oracle, clause by clause (`model_s
 
 The oracle (Spec.lean) judges an implementation trace through `judgeEv` (events) and `judgeNums` (the numbers of the
 `obs` line).  Here both are applied to a run of the model: for every configured budget, every configuration with a
-positive MaxCallDepth and a StackSize the harness accepts, every program shape and every fuel, no clause fires.
+positive MaxCallDepth and a StackSize the harness accepts (above the slack of reset_interpreter), every program shape and every fuel, no clause fires.
 -/
 import NV.C04.Lemmas
 import NV.C04.LemmasDepth
@@ -89,17 +89,18 @@ def obsOf (cfg : Cfg) (r : Out × St) : Obs :=
     sp := (match r.1 with | .ok => r.2.sp - 1 | _ => -1),
     maxtouch := if r.2.maxSp - 1 ≥ cfg.stackSize then r.2.maxSp - 1 else -1,
     cost0 := cfg.maxCost,
-    completed := (match r.1 with | .ok => true | _ => false) }
+    completed := (match r.1 with | .ok => true | _ => false),
+    handlers := r.2.raises }
 
 /-- **model_satisfies_spec** (top theorem, all clauses of the oracle that speak about one evaluation).  `lim` is what the
     judge collects from the case lines: the budget as configured (clamped), MaxCallDepth, StackSize, and the number of
-    catch frames an error can pass (the allowance for the master's error handler).  Side condition, explicit and
-    decidable: the safe applies of the program (each may add one tick, see `eval_bound_attained_through_safe_apply`)
-    fit into that allowance. -/
+    safe applies the program can make (each may add one tick, see `eval_bound_attained_through_safe_apply`).  The allowance
+    for what runs outside the program is per error delivery; the number of deliveries of the model run (`raises`) is what the
+    `handlers` line compares with the implementation.  No side condition is left. -/
 theorem model_satisfies_spec (raw : Int) (cfg : Cfg) (hcfg : cfg.maxCost = clampCost raw) (hd : 0 < cfg.maxDepth)
-    (hs : 6 ≤ cfg.stackSize) (fuel : Nat) (sh : Sh) (lim : Limits)
+    (hs : stackSlack + 1 ≤ cfg.stackSize) (fuel : Nat) (sh : Sh) (lim : Limits)
     (h1 : lim.cost = cfg.maxCost) (h2 : lim.depth = cfg.maxDepth) (h3 : lim.stack = cfg.stackSize)
-    (hw : (sh.safeWeight : Int) ≤ (handlerAllowance : Int) * (lim.catchDepth + 2)) :
+    (h4 : lim.safeWeight = sh.safeWeight) :
     judgeNums lim (obsOf cfg (evaluate cfg fuel sh)) = [] ∧ judgeEv (evaluate cfg fuel sh).2.evs = [] := by
   refine ⟨?_, exec_EvOk cfg fuel .driver (.call 0 sh) (St.start cfg) rfl⟩
   -- the four bounds
@@ -111,6 +112,7 @@ theorem model_satisfies_spec (raw : Int) (cfg : Cfg) (hcfg : cfg.maxCost = clamp
   have hwt : (Sh.call 0 sh).safeWeight = sh.safeWeight := by simp [Sh.safeWeight]
   rw [hphi, hwt] at hT
   have hD := exec_DepthInv cfg fuel .driver (.call 0 sh) (St.start cfg) ⟨Int.le_of_lt hd, Int.le_of_lt hd⟩
+  unfold stackSlack stackSlackSrc at hs
   have hinv : StackInv cfg (St.start cfg) := by
     refine ⟨?_, ?_⟩
     · show (0 : Int) ≤ spEnd cfg
@@ -125,8 +127,20 @@ theorem model_satisfies_spec (raw : Int) (cfg : Cfg) (hcfg : cfg.maxCost = clamp
   rw [hr'] at hT hD hS
   unfold judgeNums obsOf
   simp only
-  have c1 : ¬ ((r.2.ticks : Int) > (if lim.cost > 0 then lim.cost else 0) + (handlerAllowance : Int) * (lim.catchDepth + 2)) := by
-    rw [h1, if_pos hcpos]; omega
+  have c1 : ¬ ((r.2.ticks : Int) > (if cfg.maxCost > 0 then cfg.maxCost else if lim.cost > 0 then lim.cost else 0) +
+      (lim.safeWeight : Int) + deliveryAllowance lim (r.2.maxDepth - 1) * (r.2.raises : Int)) := by
+    rw [if_pos hcpos, h4]
+    have h0 : (0 : Int) ≤ deliveryAllowance lim (r.2.maxDepth - 1) := by
+      unfold deliveryAllowance
+      have : (0 : Int) ≤ (traceAllowance : Int) * (lim.traceValues : Int) * (((r.2.maxDepth - 1 + 2).toNat : Nat) : Int) := by
+        apply Int.mul_nonneg
+        · apply Int.mul_nonneg <;> omega
+        · omega
+      have : (0 : Int) ≤ (handlerAllowance : Int) := by omega
+      omega
+    have : (0 : Int) ≤ deliveryAllowance lim (r.2.maxDepth - 1) * (r.2.raises : Int) := by
+      apply Int.mul_nonneg h0; omega
+    omega
   have c2 : ¬ (lim.depth > 0 ∧ r.2.maxDepth - 1 > lim.depth - 1) := by
     rw [h2]; have := hD.2; omega
   have c3 : ¬ (lim.stack > 0 ∧ r.2.maxSp - 1 > lim.stack - 1) := by
@@ -155,8 +169,5 @@ theorem model_satisfies_spec (raw : Int) (cfg : Cfg) (hcfg : cfg.maxCost = clamp
     omega
   rw [if_neg c1, if_neg c2, if_neg c3, if_neg c4, if_neg c5, if_neg c6]
   rfl
-
-example : (6 : Int) ≤ 300 ∧ ((Sh.seq (.safe .spin) (.catch_ (.catch_ .spin))).safeWeight : Int) ≤ (handlerAllowance : Int) * (2 + 2) := by
-  decide
 
 end NV.C04
